@@ -388,7 +388,7 @@ pub fn run_factset(p: &Program, exe: &std::path::Path, fs: &FactSet, plans: &[Ve
 pub fn run_c03(tier: &str, seed: u64) -> campaign::CampaignResult {
     let start = Instant::now();
     let thorough = tier == "thorough";
-    let (np, nf, k) = if thorough { (1000, 150, 12) } else { (48, 60, 6) };
+    let (np, nf, k) = if thorough { (400, 100, 10) } else { (48, 60, 6) };
     let np = std::env::var("EQV_NPROG").ok().and_then(|v| v.parse().ok()).unwrap_or(np);
     let nf = std::env::var("EQV_NHIST").ok().and_then(|v| v.parse().ok()).unwrap_or(nf);
     let known = KnownFindings::load();
